@@ -16,11 +16,18 @@ from vlib.pipeline import Case
 from vlib import gen
 from props import factor_common as fc
 
+from props import c03_qs64 as q64
+
+# qsieve64::qsieve called DIRECTLY on inputs factor() never passes (even n, tiny n with x = n, n = k): outside C03 (the
+# property is about the factoring entry point); model and code are still compared (K), the oracle accepts the three
+# documented behaviours (DESIGN 10.3)
+q64.ACCEPT_UNGUARDED = True
+
 PID = "C03"
 GEN = ["primality"]
-LEAN = ["Ymq.Props.C03"]
+LEAN = ["Ymq.Props.C03"] + q64.LEAN
 AUDIT = "Ymq.Audit.C03"
-THEOREMS = ['Ymq.C03.factor_total', 'Ymq.C03.factor_total_of_input', 'Ymq.C03.factorImpl_total']
+THEOREMS = ['Ymq.C03.factor_total', 'Ymq.C03.factor_total_of_input', 'Ymq.C03.factorImpl_total'] + q64.THEOREMS
 PROFILES = ["release", "chk"]
 TIMEOUT = 60.0
 RULE = ("first, in both tiers, composites / primes / prime squares of exactly 191..193, 255..257, 319..321, 383..385, 447..449 bits (ZmodN of 3..8 words) through ecm and auto; then "
@@ -41,6 +48,13 @@ P200 = [211, 223, 227, 229, 233, 239, 241, 251, 257, 263, 269, 271, 277, 281, 28
 
 def selectors_for(n):
     return [a for a in fc.ALGOS if fc.allowed(a, n)]
+
+
+def gen_fork(rng, label):
+    """an independent stream derived from the run's seed (the main stream is not advanced)"""
+    import random, hashlib
+    st = hashlib.blake2b((label + repr(rng.getstate()[1][:4])).encode(), digest_size=8).digest()
+    return random.Random(int.from_bytes(st, "big"))
 
 
 def cli_cases(tier, rng):
@@ -139,6 +153,7 @@ def cases(tier, rng, extended=False):
         mult *= 4
     seen = set()
     yield from cli_cases(tier, rng)
+    yield from q64.cases(tier, gen_fork(rng, "C03-qs64"), extended)
 
     def emit(n, algs=None, tag="", timeout=None):
         for alg in (algs or selectors_for(n)):
@@ -222,6 +237,8 @@ def cases(tier, rng, extended=False):
 
 
 def oracle(case, ans):
+    if case.op in q64.OPS:
+        return q64.oracle(case, ans)
     if case.op in ("cli", "cli_build"):
         return cli_oracle(case, ans)
     kind = fc.parse_answer(ans)[0]
@@ -233,6 +250,8 @@ def oracle(case, ans):
 
 
 def finding_key(case, ans, profile):
+    if case.op in q64.OPS:
+        return None
     if case.op in ("cli", "cli_build"):
         return None
     kind = fc.parse_answer(ans)[0]
@@ -244,6 +263,8 @@ def finding_key(case, ans, profile):
 
 def followup(case, ans):
     # replay also crashing runs: tells whether the model (lib.rs control flow) predicts the panic
+    if case.op in q64.OPS:
+        return q64.followup(case, ans)
     if case.op in ("cli", "cli_build"):
         return None
     kind, fs, trace, md = fc.parse_answer(ans)
@@ -256,12 +277,16 @@ def followup(case, ans):
 
 
 def klass(case, ans):
+    if case.op in q64.OPS:
+        return q64.klass(case, ans)
     if case.op in ("cli", "cli_build"):
         return f"{case.tag}/{case.args[0]}/{ans.split(' err=')[-1] if ' err=' in ans else ans}"
     return f"{case.args[1]}/{case.tag}/{fc.parse_answer(ans)[0]}"
 
 
 def nontrivial(case, ans):
+    if case.op in q64.OPS:
+        return q64.nontrivial(case, ans)
     if case.op in ("cli", "cli_build"):
         return case.op == "cli"
     return int(case.args[0]) > 3
@@ -283,3 +308,9 @@ def corpus_case(line):
     if line.startswith("!chk "):
         return Case(line[5:], k=False, tag="corpus", profiles=["chk"], timeout=180)
     return Case(line, k=False, tag="corpus")
+
+
+# ---- qsieve64 inside the model (props/c03_qs64.py)
+MODELLED = list(MODELLED) + list(q64.MODELLED)
+UNMODELLED = list(UNMODELLED) + list(q64.UNMODELLED)
+RULE = RULE + " || " + q64.RULE
